@@ -83,10 +83,10 @@ def iop_expected(kind, arg):
         return [max(arg)]
 
 
-def run(pid, opmix, focus_text, manifest_assumptions):
+def run(pid, opmix, focus_text, manifest_assumptions, extra=None, allowed=None, use_iops=True, oracle='spec', corpus_prefixes=None):
     c = Check(pid)
     c.prove()
-    build_driver()
+    build_driver(['arrays'])
     gen_arrops.main()
     build_harness(['arrops'])
     rng = c.rng
@@ -95,21 +95,29 @@ def run(pid, opmix, focus_text, manifest_assumptions):
     hist = []
     # corpus of minimised / historical cases first (the defects repaired by fix: commits)
     corpus = os.path.join(VERIF, 'corpus', 'arrays.txt')
-    corpus_lines = [l.strip() for l in open(corpus) if l.strip() and not l.startswith('#')] if os.path.exists(corpus) else []
+    corpus_lines = []
+    if os.path.exists(corpus):
+        for l in open(corpus):
+            l = l.strip()
+            if l and not l.startswith('#') and pid in l.split('|', 1)[0].split(','):
+                corpus_lines.append(l.split('|', 1)[1])
     for i in range(n_hist):
         mode = rng.choice(['g', 'c', 'mixed'])
         types = 'six' if rng.random() < 0.35 else 'all'
-        g = ag.HistoryGen(rng, backend_mode=mode, types=types, opmix=opmix, max_ops=14 if quick else 22).gen()
+        g = ag.HistoryGen(rng, backend_mode=mode, types=types, opmix=opmix, max_ops=14 if quick else 22, allowed=allowed).gen()
         hist.append(g)
     # lock-step pairs (C03): the same random stream with all-Go and all-C roots
     pairs = []
-    for i in range(60 if quick else 1200):
+    for i in range((150 if oracle == 'lockstep' else 60) if quick else 1500):
         seed = rng.getrandbits(48)
-        ga = ag.HistoryGen(random.Random(seed), backend_mode='g', opmix=opmix).gen()
-        gb = ag.HistoryGen(random.Random(seed), backend_mode='c', opmix=opmix).gen()
+        ty = 'six' if i % 3 == 0 else 'all'
+        ga = ag.HistoryGen(random.Random(seed), backend_mode='g', types=ty, opmix=opmix, allowed=allowed).gen()
+        gb = ag.HistoryGen(random.Random(seed), backend_mode='c', types=ty, opmix=opmix, allowed=allowed).gen()
         pairs.append((ga, gb))
-    mal = [ag.malformed_history(rng) for _ in range(40 if quick else 600)]
-    iops = iop_cases(rng, 150 if quick else 3000)
+    mal = [ag.malformed_history(rng, allowed) for _ in range(40 if quick else 600)]
+    iops = iop_cases(rng, 150 if quick else 3000) if use_iops else []
+    if oracle == 'lockstep':
+        hist = []          # C03: only the lock-step pairs carry an oracle
     lines = [g.line() for g in hist]
     for ga, gb in pairs:
         lines += [ga.line(), gb.line()]
@@ -134,7 +142,7 @@ def run(pid, opmix, focus_text, manifest_assumptions):
             if d:
                 c.corr_broken.append({'history': line, 'type': ty, 'op_index': d[0], 'impl': d[1][:300], 'model': d[2][:300]})
                 break
-        if not valid:
+        if not valid or oracle != 'spec':
             return
         exp = ' ; '.join(g.expected)
         for ty in tys:
@@ -181,7 +189,7 @@ def run(pid, opmix, focus_text, manifest_assumptions):
             mal_panics += 1
         pos += 1
     for l in corpus_lines:
-        per = parse_impl(impl[pos])
+        per = {'iop': impl[pos]} if l.startswith('IOP') else parse_impl(impl[pos])
         for ty, body in per.items():
             if body != model[pos]:
                 c.corr_broken.append({'history': l, 'type': ty, 'diff': first_diff(body, model[pos])})
@@ -196,6 +204,7 @@ def run(pid, opmix, focus_text, manifest_assumptions):
         if impl[pos] != exp:
             c.violation('iop_%d.json' % pos, {'kind': 'integer-helper-oracle', 'case': line, 'implementation': impl[pos], 'definition': exp})
         pos += 1
+    extra_cov = extra(c) if extra else {}
     for g in hist[:3]:
         c.sample({'history': g.line(), 'spec_final_observable': g.expected[-1][:200]})
     c.cov['rule'] = ('operation histories (4-%d ops) over 1-3 root arrays (1-4 dims, extents 1-5, Go- and C-backed) with chains of nested, '
@@ -205,5 +214,5 @@ def run(pid, opmix, focus_text, manifest_assumptions):
                      'non-trivial = contains a slice and a write; %s') % (14 if quick else 22, focus_text)
     c.finish(extra_cov={'op_histogram': op_hist, 'lockstep_go_vs_c_pairs_equal': goc_equal, 'malformed_histories': len(mal),
                         'malformed_panics': mal_panics, 'integer_helper_cases': len(iops), 'corpus_cases': len(corpus_lines),
-                        'finding_class_hits': finding_hits, 'element_types': TYPES},
+                        'finding_class_hits': finding_hits, 'element_types': TYPES, **extra_cov},
              assumptions=manifest_assumptions)
